@@ -173,6 +173,15 @@ def check(res):
     for fn, key in (('whitening_mat.npy', 'wm'), ('whitening_mat_inv.npy', 'wmi_file'),
                     ('similar_templates.npy', 'similar_templates')):
         mats = [tr[key] for tr in truths]
+        if key == 'wmi_file' and any(m is None for m in mats) and all(tr['wm'] is not None for tr in truths):
+            # a probe without an inverse file: whatever inverse block the merged file carries for it is the
+            # inverse of that probe's matrix
+            a = arr(fn)
+            if a is not None:
+                exp = block_diag([m if m is not None else np.linalg.inv(tr['wm'])
+                                  for m, tr in zip(mats, truths)])
+                if a.shape != exp.shape or not np.allclose(a, exp, rtol=1e-9, atol=1e-12):
+                    bad.append((fn, 'not-block-diagonal,probe-without-inverse-file', describe(exp), describe(a)))
         if all(m is not None for m in mats):
             a = arr(fn)
             if a is not None:
@@ -187,6 +196,9 @@ def check(res):
                     {k: prm.get(k) for k in ('n_channels_dat', 'sample_rate', 'error')}))
     if res.get('loads') is not True:
         bad.append(('merged-directory', 'does-not-load', 'load_model succeeds', res.get('loads')))
+    if res.get('second_merge_differs'):
+        bad.append(('second-merge', 'output-differs-from-first-merge', 'the same files',
+                    res['second_merge_differs']))
     # the model returned by merge() shows what the merged files hold
     mod = res.get('model') or {}
     if 'error' not in mod:
